@@ -45,6 +45,26 @@ impl TypeResolver {
         }
     }
 
+    /// Split `inner` at commas that are not nested inside `<>`, `()` or `[]`
+    pub(crate) fn split_top_level(inner: &str) -> Vec<String> {
+        let mut parts = Vec::new();
+        let mut depth = 0i32;
+        let mut start = 0;
+        for (i, ch) in inner.char_indices() {
+            match ch {
+                '<' | '(' | '[' => depth += 1,
+                '>' | ')' | ']' => depth -= 1,
+                ',' if depth == 0 => {
+                    parts.push(inner[start..i].trim().to_string());
+                    start = i + 1;
+                }
+                _ => {}
+            }
+        }
+        parts.push(inner[start..].trim().to_string());
+        parts
+    }
+
     /// Extract inner type from Option<T>
     fn extract_option_inner_type(&self, rust_type: &str) -> Option<String> {
         if rust_type.starts_with("Option<") && rust_type.ends_with('>') {
@@ -59,12 +79,7 @@ impl TypeResolver {
     fn extract_result_ok_type(&self, rust_type: &str) -> Option<String> {
         if rust_type.starts_with("Result<") && rust_type.ends_with('>') {
             let inner = &rust_type[7..rust_type.len() - 1];
-            if let Some(comma_pos) = inner.find(',') {
-                let ok_type = inner[..comma_pos].trim();
-                Some(ok_type.to_string())
-            } else {
-                Some(inner.to_string())
-            }
+            Self::split_top_level(inner).into_iter().next()
         } else {
             None
         }
@@ -127,8 +142,7 @@ impl TypeResolver {
             if inner.trim().is_empty() {
                 return Some(vec![]);
             }
-            let types: Vec<String> = inner.split(',').map(|s| s.trim().to_string()).collect();
-            Some(types)
+            Some(Self::split_top_level(inner))
         } else {
             None
         }
@@ -143,25 +157,9 @@ impl TypeResolver {
 
     /// Parse two type parameters separated by comma (for HashMap, BTreeMap)
     fn parse_two_type_params(&self, inner: &str) -> Option<(String, String)> {
-        let mut depth = 0;
-        let mut comma_pos = None;
-
-        for (i, ch) in inner.char_indices() {
-            match ch {
-                '<' => depth += 1,
-                '>' => depth -= 1,
-                ',' if depth == 0 => {
-                    comma_pos = Some(i);
-                    break;
-                }
-                _ => {}
-            }
-        }
-
-        if let Some(pos) = comma_pos {
-            let key_type = inner[..pos].trim().to_string();
-            let value_type = inner[pos + 1..].trim().to_string();
-            Some((key_type, value_type))
+        let parts = Self::split_top_level(inner);
+        if parts.len() >= 2 {
+            Some((parts[0].clone(), parts[1..].join(", ")))
         } else {
             None
         }
